@@ -273,3 +273,20 @@ def max_fa_period(V):
             largest = T.sand(*[T.sge(_cx_abs2(F[k]), _cx_abs2(F[j])) for j in range(m)])
             goals.append(T.sand(T.seq(r, T.sdiv(1, f[k])), largest))
         out.prove('reports-the-period-of-a-largest-AMPLITUDE-bin', T.sor(*goals), atomize=True)
+
+
+# ------------------------------------------------------------------- object-level spectrum AFTER the record has been changed
+import contracts_c04_cache as C4
+
+_CHANGES = ['reset_values', 'add_constant', 'add_series', 'add_signal', 'remove_average', 'remove_poly/1', 'running_average', 'butter_pass/band']
+
+
+@unit('C06', 'spectrum-after-the-record-changed', functions=C4.FUNCS,
+      cases=[dict(cls=c, op=k) for c in ('Signal', 'AccSignal') for k in _CHANGES + (['remove_rolling_average/values', 'rebase_displacement', 'correct_me'] if c == 'AccSignal' else [])],
+      modes=('unbounded',), budget_ms=3000)
+def spectrum_after_change(V, cls, op):
+    """History read the spectrum and its frequencies -> change the record through a public operation -> read again: the object reports
+    the spectrum of a freshly constructed object holding the NEW record (which is dt x DFT of it by the units above)."""
+    ops = dict(C4.COMMON_OPS)
+    ops.update(C4.ACC_OPS)
+    C4.run_op(V, cls, op, ops[op], ['fa_spectrum', 'fa_frequencies', 'fa_freqs', 'npts'], prewarm=True)
